@@ -137,13 +137,22 @@ def r_spawn_fresh(e, R):
     # roles: the pipe whose read end becomes the sentinel: (parent_r, child_w); the payload pipe: (child_r, parent_w)
     sent = [n for n in func_nodes(la) if isinstance(n, ast.Assign) and isinstance(n.targets[0], ast.Attribute) and n.targets[0].attr == "sentinel"]
     parent_r = sent[0].value.id if sent and isinstance(sent[0].value, ast.Name) else None
-    fd_open = [c for c in func_nodes(la) if isinstance(c, ast.Call) and norm(c.func) == "os.fdopen"]
-    parent_w = fd_open[0].args[0].id if fd_open and isinstance(fd_open[0].args[0], ast.Name) else None
     ends = {}
     for p in pipes:
         r_, w_ = [x.id for x in p.targets[0].elts]
         ends[r_] = "r"
         ends[w_] = "w"
+    # the parent's write end: the write end of the *other* pipe (the one whose read end is not the sentinel); where the payload is
+    # written through os.fdopen in this function, that call must name it (directly or through a local bound once to it)
+    other = [p for p in pipes if parent_r not in [x.id for x in p.targets[0].elts]]
+    parent_w = other[0].targets[0].elts[1].id if len(other) == 1 else None
+    for c in [c for c in func_nodes(la) if isinstance(c, ast.Call) and norm(c.func) == "os.fdopen" and c.args and isinstance(c.args[0], ast.Name)]:
+        nm_ = c.args[0].id
+        defs_ = e.local_defs(la, nm_)
+        if nm_ not in ends and len(defs_) == 1 and isinstance(defs_[0], ast.Name):
+            nm_ = defs_[0].id
+        if nm_ != parent_w:
+            parent_w = None
     child = set(ends) - {parent_r, parent_w}
     R.check(parent_r in ends and parent_w in ends and len(child) == 2, "R-SPAWN-FRESH", "_launch: one pipe end each for sentinel (parent reads) and payload (parent writes)",
             la.short, f"parent ends {parent_r}, {parent_w}; child ends {sorted(child)}", "pipe ends not identified", e.loc(la, la.node))
